@@ -262,12 +262,12 @@ def key_of(recipe):
 
 
 def bounds(tier, seed):
-    return {"menu": list(MENU), "initial_trees": list(TREES), "depth": 2 if tier == "quick" else 3, "dedup": "content of project tree"}
+    return {"menu": list(MENU), "initial_trees": list(TREES), "depth": 2 if tier == "quick" else 4, "dedup": "content of project tree"}
 
 
 def run(tier, seed):
     t0 = time.time()
-    depth = 2 if tier == "quick" else 3
+    depth = 2 if tier == "quick" else 4
     st = Stats()
     cmds = list(MENU)
     merged = 0
